@@ -7,7 +7,6 @@ NA = [
  ("C01", "equality of the values two graphs compute over all programs/inputs/seeds is a runtime-value property; no necessary structural clause beyond those decided under C02/C04/C06"),
  ("C05", "numeric error bound over all inputs and random tapes of an arithmetic protocol; not visible in code shape"),
  ("C13", "round-trip equalities over all integers/widths/shapes are value-level; the one structural facet (lossy narrowing) is claimed under C10"),
- ("C16", "correctness of a Boolean comparison circuit generator over all widths/operands is value-level"),
  ("C18", "ordering/stability of runtime data; no static argument in reach"),
  ("C20", "real-analysis approximation bounds over dense domains"),
 ]
@@ -97,6 +96,12 @@ claim("C17", "other",
       "DESIGN.md section 3, C17",
       "Trusted: the algebra of Add/Subtract/Multiply/MixedMultiply/ones on bit and integer arrays (elementwise, modular), the order of Graph::input calls as argument order, value-flow engine; operations outside the domain make a branch unjudged (reported in the evidence), never a verdict.",
       "affine abstract interpretation of a graph builder over its MIR producer graph (custom rustc_private lint)")
+
+claim("C16", "other",
+      "Decides ONE clause, for every input: 'minimum / maximum are comparison + multiplexer wired in the right orientation, with the operation's signed mode handed to the comparison'. Min::instantiate and Max::instantiate are read as terms Mux(Cmp(p, q), x, y) over their two inputs (E9, analysis/cmpsel.py: producer graph of the builder's MIR, vec![..] literals, reshape-only helpers checked on their bodies); since the operands are touched only through one comparison and one selection, the three orderings first<second, first=second, first>second decide the result for every width, signedness and broadcast shape (C16.O); the comparison's signed_comparison field must originate in self.signed_comparison (C16.S). The correctness of the comparison circuits (two-bit state, shrink, msb flip, bit pull-out) is NOT decided; the multiplexer's orientation is decided under C17.M.",
+      "DESIGN.md section 3, C16",
+      "Trusted: the documented meaning of the six comparison operations by name, C17.M for Mux, the order of Graph::input calls as argument order, value-flow engine; a builder using operations outside the domain is unjudged (reported), never a verdict.",
+      "exact finite-ordering abstract interpretation of a graph builder over its MIR producer graph (custom rustc_private lint)")
 
 ALL = ["C%02d" % i for i in range(1, 21)]
 
